@@ -183,6 +183,12 @@ func (store *Store) transactionQueryContext(qb query.Builder, q GetTransactionsQ
 		switch {
 		case key == "reference" || key == "timestamp":
 			return fmt.Sprintf("%s %s ?", key, query.DefaultComparisonOperatorsMapping[operator]), []any{value}, nil
+		case key == "date":
+			// the v1 API filters on the transaction timestamp under the name "date" (start_time, end_time)
+			return fmt.Sprintf("timestamp %s ?", query.DefaultComparisonOperatorsMapping[operator]), []any{value}, nil
+		case key == "id":
+			// v1: after
+			return fmt.Sprintf("transactions.id %s ?", query.DefaultComparisonOperatorsMapping[operator]), []any{value}, nil
 		case key == "account":
 			// TODO: Should allow comparison operator only if segments not used
 			if operator != "$match" {
